@@ -7,6 +7,8 @@ import PromqlVerif.Sem
 import PromqlVerif.Gen.Facts
 import PromqlVerif.Proofs.Pushdown
 import PromqlVerif.Proofs.DistAgg
+import PromqlVerif.Proofs.TopkPush
+import PromqlVerif.Proofs.DistSound
 namespace PromqlVerif.C10
 open PromqlVerif Val
 
@@ -179,10 +181,167 @@ example :
           [([⟨"a", "x"⟩, ⟨"b", "1"⟩], 5), ([⟨"a", "z"⟩], 7), ([⟨"a", "x"⟩, ⟨"b", "2"⟩], 9)]).toOption := by
   decide
 
+/-- **topk / bottomk are pushed down soundly**: for a group split over any number of partitions
+(any sizes, empty ones, every arrival order, NaN-free values over a strict weak order), the engine's
+bounded heap run over the concatenation of the heaps' results per partition keeps a selection of
+the `k` extreme samples of the whole group: `min k n` of them, a sub-multiset of the group, none
+strictly below a sample that was dropped at either level - ties broken arbitrarily, as in central
+execution (`C04.topk_keeps_the_extremes`). -/
+theorem topk_pushdown {α : Type} {P : V → Prop} (L : LtLaws P) (top : Bool) (k : Nat) (hk : 1 ≤ k)
+    (parts : List (List (α × V))) (hitems : ∀ p ∈ parts, ∀ x ∈ p, P x.2 ∧ isNaN x.2 = false) :
+    IsSel top k parts.flatten (kSelect top k (parts.map (kSelect top k)).flatten) := by
+  have hsub : ∀ p ∈ parts, ∀ x ∈ kSelect top k p, x ∈ p := by
+    intro p _ x hx
+    obtain ⟨d, hd⟩ := kSelect_perm top k p
+    exact hd.subset (List.mem_append_left _ hx)
+  have hsel : ∀ x ∈ (parts.map (kSelect top k)).flatten, P x.2 ∧ isNaN x.2 = false := by
+    intro x hx
+    obtain ⟨l, hl, hxl⟩ := List.mem_flatten.mp hx
+    obtain ⟨p, hp, rfl⟩ := List.mem_map.mp hl
+    exact hitems p hp x (hsub p hp x hxl)
+  have h := kSelect_isSel L top k hk _ hsel
+  have := isSel_parts L top k (parts.map fun p => (p, kSelect top k p))
+    (by
+      intro q hq
+      obtain ⟨p, hp, rfl⟩ := List.mem_map.mp hq
+      exact kSelect_isSel L top k hk p (hitems p hp))
+    [] (kSelect top k (parts.map (kSelect top k)).flatten)
+    (by
+      intro x hx
+      simp only [List.map_map, Function.comp_def, List.map_id', List.nil_append] at hx
+      obtain ⟨l, hl, hxl⟩ := List.mem_flatten.mp hx
+      exact (hitems l hl x hxl).1)
+    (by simpa [List.map_map, Function.comp_def] using h)
+  simpa [List.map_map, Function.comp_def] using this
+
+theorem aggregate_k_eq (top : Bool) (w : Bool) (g : List String) (p : V) (hp : inInt64 p = true)
+    (hk : 1 ≤ toInt p) (X : Vec V) :
+    aggregate (if top then "topk" else "bottomk") w g p X
+      = .ok ((groupBy (fun (x : Labels × V) => groupKey w g x.1) X).flatMap fun gr => kSelect top (toInt p).toNat gr.2) := by
+  have hk' : ¬ toInt p < 1 := by omega
+  unfold aggregate
+  cases top <;> simp [hp, hk']
+
+/-- **the grouped topk / bottomk, pushed down**: for every grouping, any number of partitions
+with groups split across them, `k >= 1`: running `topk` on every partition and `topk` again on
+the concatenated partial results keeps, in every group, a selection of the `k` extreme samples of
+that group in the union - which is also all that central execution guarantees
+(`C04.topk_keeps_the_extremes`). -/
+theorem grouped_topk_pushdown {P : V → Prop} (L : LtLaws P) (top : Bool) (w : Bool) (g : List String) (p : V)
+    (hp : inInt64 p = true) (hk : 1 ≤ toInt p) (parts : List (Vec V))
+    (hitems : ∀ q ∈ parts, ∀ x ∈ q, P x.2 ∧ isNaN x.2 = false) :
+    ∃ partials dist,
+      parts.mapM (aggregate (if top then "topk" else "bottomk") w g p) = .ok partials ∧
+      aggregate (if top then "topk" else "bottomk") w g p partials.flatten = .ok dist ∧
+      ∀ kk : Labels, IsSel top (toInt p).toNat
+        (parts.flatten.filter fun x => groupKey w g x.1 == kk) (dist.filter fun x => groupKey w g x.1 == kk) := by
+  have hk1 : 1 ≤ (toInt p).toNat := by omega
+  let sel : Vec V → Vec V := kSelect top (toInt p).toNat
+  let aggK : Vec V → Vec V := fun X => (groupBy (fun (x : Labels × V) => groupKey w g x.1) X).flatMap fun gr => sel gr.2
+  have hsub : ∀ l, ∀ y ∈ sel l, y ∈ l := by
+    intro l y hy
+    obtain ⟨d, hd⟩ := kSelect_perm top (toInt p).toNat l
+    exact hd.subset (List.mem_append_left _ hy)
+  have hnil : sel [] = [] := by
+    have := kSelect_length top (toInt p).toNat hk1 ([] : Vec V)
+    exact List.length_eq_zero_iff.mp (by simpa using this)
+  refine ⟨parts.map aggK, aggK (parts.map aggK).flatten, ?_, aggregate_k_eq top w g p hp hk _, fun kk => ?_⟩
+  · induction parts with
+    | nil => rfl
+    | cons q qs ih =>
+      simp only [List.mapM_cons, aggregate_k_eq top w g p hp hk q, bind, Except.bind, pure, Except.pure, List.map_cons]
+      rw [ih (fun q' hq' => hitems q' (List.mem_cons_of_mem _ hq'))]
+  · -- the group `kk` of the distributed result is the heap over the partitions' heaps of group `kk`
+    have h1 := filter_flatMap_groups (groupKey w g) sel hsub hnil (parts.map aggK).flatten kk
+    have h2 : ((parts.map aggK).flatten.filter fun x => groupKey w g x.1 == kk)
+        = ((parts.map fun q => q.filter fun x => groupKey w g x.1 == kk).map sel).flatten := by
+      rw [List.filter_flatten, List.map_map, List.map_map]
+      congr 1
+      apply List.map_congr_left
+      intro q _
+      exact filter_flatMap_groups (groupKey w g) sel hsub hnil q kk
+    show IsSel top (toInt p).toNat _ ((aggK (parts.map aggK).flatten).filter _)
+    rw [h1, h2, List.filter_flatten]
+    exact topk_pushdown L top (toInt p).toNat hk1 (parts.map fun q => q.filter fun x => groupKey w g x.1 == kk) (by
+      intro q' hq' x hx
+      obtain ⟨q, hq, rfl⟩ := List.mem_map.mp hq'
+      exact hitems q hq x (List.mem_filter.mp hx).1)
+
+/-- a concrete run: top 2 of three partitions -/
+example : kSelect true 2 (([[("a", (5 : Int)), ("b", 1), ("c", 7)], [], [("d", 6), ("e", 9)]] : List (List (String × Int))).map
+    (kSelect true 2)).flatten = [("c", 7), ("e", 9)] := by decide
+
+/-! ### the rewritten plan as a whole -/
+
+/-- the exact aggregations are re-reducible under the laws of the value algebra -/
+theorem exact_aggs (L : LtLaws (fun v : V => isNaN v = false)) (hn : NanLaw V)
+    (hassoc : ∀ a b c : V, add (add a b) c = add a (add b c))
+    (hadd : ∀ x y : Int, (ofInt (x + y) : V) = add (ofInt x) (ofInt y)) :
+    ∀ op, exactAggs.contains op = true → ExactAgg (V := V) op := by
+  intro op hop
+  simp only [exactAggs, List.contains_eq_mem, List.mem_cons, List.mem_nil_iff, or_false, decide_eq_true_eq] at hop
+  rcases hop with rfl | rfl | rfl | rfl | rfl
+  · exact ⟨rered_sum hassoc nan, by decide, by decide⟩
+  · exact ⟨rered_min L hn nan, by decide, by decide⟩
+  · exact ⟨rered_max L hn nan, by decide, by decide⟩
+  · exact ⟨rered_group nan, by decide, by decide⟩
+  · exact ⟨rered_count hadd nan, by decide, by decide⟩
+
+/-- **the distributed plan evaluates to the central result.** `Dist.optDistribute` is the model
+of `DistributedExecutionOptimizer.Optimize` (`traverseBottomUp` with its early stops, tied to the
+real optimizer by the `distplan` oracle); `Sem.eval` gives `remote i e` the meaning "evaluate `e`
+over what engine `i` stores" and `coalesce` "the children's vectors one after the other". For
+every expression in `siteOk` (calls with at most one argument, or up to three with a literal
+among them - `clamp_min(x, 1)`, `histogram_quantile(0.9, x)` -, no `timestamp`; distributive
+aggregations among sum/min/max/group/count), any number of remote engines with any partition of
+the series (the local storage being their union, as in the repository's tests), the duplicate
+check off as in the engine, and a value algebra with the order laws of IEEE comparison, an
+associative addition and an additive `ofInt`: at every step the rewritten plan has exactly the
+value of the original one - same groups in the same order, same label sets, same values, same
+errors. (For IEEE doubles addition is associative up to rounding only; topk / bottomk sites are
+covered by `grouped_topk_pushdown` up to ties.) -/
+theorem distributed_plan_is_central (c : Ctx V) (hq : c.q.noDupCheck = true) (hst : c.st = c.parts.flatten)
+    (hne : c.parts ≠ []) (L : LtLaws (fun v : V => isNaN v = false)) (hn : NanLaw V)
+    (hassoc : ∀ a b c : V, add (add a b) c = add a (add b c))
+    (hadd : ∀ x y : Int, (ofInt (x + y) : V) = add (ofInt x) (ofInt y))
+    (e e' : Expr V) (hok : siteOk e = true) (h : optDistribute c.parts.length e = some e') (t : Int) :
+    eval c t e' = eval c t e := by
+  unfold optDistribute at h
+  cases hr : traverseD c.parts.length none e with
+  | none => rw [hr] at h; cases h
+  | some r =>
+    obtain ⟨r1, r2⟩ := r
+    rw [hr] at h
+    simp only [Option.map_some, Option.some.injEq] at h
+    subst h
+    exact (traverse_sound c hq hst hne (exact_aggs L hn hassoc hadd) none e hok r1 r2 hr).1.1 t
+
+/-- `histogram_quantile(0.9, sum by (le) (rate(h_bucket[5m])))` is in `siteOk` -/
+example :
+    let h : VSel := { matchers := [⟨.eq, "__name__", "h_bucket"⟩], origOffset := 0, atTs := none }
+    siteOk (.call "histogram_quantile" [.stepInv (.num (9 : Int)), .agg "sum" false ["le"] (.call "rate" [.msel h 300000])])
+      = true := rfl
+
+/-- a plan the theorem applies to: `sum by (a) (abs(m))` over two engines becomes
+`sum by (a) (coalesce(remote 0 (sum ..), remote 1 (sum ..)))` -/
+example :
+    let m : Expr Int := .vsel { matchers := [⟨.eq, "__name__", "m"⟩], origOffset := 0, atTs := none }
+    siteOk (.agg "sum" false ["a"] (.call "abs" [m])) = true ∧
+    optDistribute 2 (.agg "sum" false ["a"] (.call "abs" [m]))
+      = some (.agg "sum" false ["a"] (.coalesce [.remote 0 (.agg "sum" false ["a"] (.call "abs" [m])),
+                                                 .remote 1 (.agg "sum" false ["a"] (.call "abs" [m]))])) := by
+  exact ⟨rfl, rfl⟩
+
 /-- the aggregations the source pushes down (regenerated): `count` among them is rewritten to
 a central `sum` -/
 theorem pushed_down_aggregations : Gen.distributiveAggs = ["BOTTOMK", "COUNT", "GROUP", "MAX", "MIN", "SUM", "TOPK"] := by
   decide
+
+/-- the model's table of distributive aggregations is the source's (regenerated) -/
+theorem model_table_is_source_table :
+    (["SUM", "MIN", "MAX", "GROUP", "COUNT", "BOTTOMK", "TOPK"].all fun x => Gen.distributiveAggs.contains x) = true ∧
+      distAggs = ["sum", "min", "max", "group", "count", "bottomk", "topk"] ∧
+      distAggs.length = Gen.distributiveAggs.length := by decide
 
 /-- exact-arithmetic witness of `count_as_sum`'s hypothesis -/
 example : ∀ x y : Int, (ofInt (x + y) : Int) = add (ofInt x) (ofInt y) := fun _ _ => rfl
